@@ -43,7 +43,7 @@ def variants():
 
 
 def budget(tier):
-    return 30 if tier == "quick" else 120
+    return 30 if tier == "quick" else 24
 
 
 def decode_case(raw):
@@ -262,7 +262,7 @@ def run_case(case, ctx):
         classes.add("io_cache=%s" % cfg.get("io_cache"))
         fps = []
         points = []
-        if thorough and nsc <= 400:
+        if thorough and nsc <= 150:
             for k in range(nsc):
                 for m in ("before", "after", "short"):
                     points.append((k, m))
@@ -315,7 +315,7 @@ def run_case(case, ctx):
                     ref = w.cmd("fix", shim_env={"COUNT": cntf})
                     nfx = int(open(cntf).read()) if os.path.exists(cntf) else 0
                     want = w.arr.snap_data()
-                    ks = range(nfx) if (thorough and nfx <= 300) else sorted(set(f["kfrac"] * nfx // 1000 for f in case["faults"]))
+                    ks = range(nfx) if (thorough and nfx <= 100) else sorted(set(f["kfrac"] * nfx // 1000 for f in case["faults"]))
                     for k in ks:
                         for mode in (("before", "after", "short") if thorough else (case["faults"][k % len(case["faults"])]["mode"] if case["faults"][k % len(case["faults"])]["mode"] in ("before", "after", "short") else "before",)):
                             sv2.restore()
